@@ -96,6 +96,7 @@ def adjacency_table(case):
     d = D()
     d.n_dim = len(shape)
     d.index_map = np.zeros(tuple(s + 1 for s in shape), dtype=np.int32)
+    d.data = np.zeros(shape)            # what a dendrogram under construction also carries (an adjacency may read its shape)
     table = []
     for p in range(int(np.prod(shape))):
         c = np.unravel_index(p, shape)
